@@ -1,6 +1,6 @@
 """C09: backsymbol macro machine simulates the base machine exactly (finding F3)."""
 from .macrosim import check_sim
-LEVEL = "exploration"
+LEVEL = "proof"
 
 
 def check(rep, tier, seed, replay):
